@@ -77,6 +77,9 @@ def canon(x, depth=0):
             return ["function", x.__qualname__]
         if hasattr(x, "vmin") and hasattr(x, "vmax"):
             return [name, canon(x.vmin), canon(x.vmax)]
+        if hasattr(x, "get_bad") and hasattr(x, "N"):
+            # a Colormap object: its look-up-table parameters are the caller's
+            return ["Colormap", getattr(x, "name", ""), int(x.N), canon([float(v) for v in x.get_bad()]), canon([float(v) for v in x.get_under()]), canon([float(v) for v in x.get_over()])]
         return ["mpl", name]
     if name in ("ClusterGrid", "ClusterGridSplit"):
         return [name, canon(np.asarray(x.data2d, dtype=float), depth + 1), canon(list(x.dendrogram_row.reordered_ind), depth + 1),
